@@ -478,6 +478,14 @@ def limit_shards(tier):
         for mode, apis in groups:
             out.append({'depth': None, 'elements': None, 'shape': 'flat', 'modes': [mode], 'apis': apis,
                         'versions': ['1.0'], 'sizes': [n], 'timeout': 900})
+    # wide and shallow documents (depth 3) made of N groups whose last child declares a namespace: the level
+    # bookkeeping of the loaders must survive namespace scopes, every N is within the limits
+    for shape in ('groups-prefix', 'groups-default'):
+        for limit in (10, 50):
+            out.append({'depth': limit, 'elements': None, 'shape': shape, 'modes': ['eager', 'lazy'],
+                        'apis': ALL_APIS, 'versions': both, 'sizes': [1, 2, limit - 1, limit, limit + 1, 3 * limit]})
+        out.append({'depth': None, 'elements': None, 'shape': shape, 'modes': ['eager', 'lazy'], 'apis': ALL_APIS,
+                    'versions': both, 'sizes': [999, 1000, 1001, 1500] if tier == 'thorough' else [1500]})
     out.append({'setter': [1, 2, 0, -1, 'float', 'str', 'none', 10 ** 9]})
     out.append({'gcphase': GC_PHASES})
     return out
@@ -503,14 +511,23 @@ def setting_name(cfg):
     return 'depth=%s,elements=%s' % (cfg.get('depth') or 'default', cfg.get('elements') or 'default')
 
 
+def shape_size(shape, n):
+    """(nesting depth, number of elements) of the sweep document of size n."""
+    if shape.startswith('chain'):
+        return n, n
+    if shape.startswith('groups'):
+        return 3, 1 + 3 * n
+    return min(n, 2), n
+
+
 def expected(cfg, rec):
     """'processed' | 'exceeded' | None (not judged) for one call record of a sweep."""
     n, mode, api = rec['n'], rec['mode'], rec['api']
     dlim = cfg.get('depth') or DEFAULT_DEPTH
     elim = cfg.get('elements') or DEFAULT_ELEMENTS
-    depth = n if cfg['shape'].startswith('chain') else min(n, 2)
+    depth, count = shape_size(cfg['shape'], n)
     over_depth = depth > dlim
-    over_elems = n > elim and mode == 'eager'
+    over_elems = count > elim and mode == 'eager'
     if mode == 'lazy' and api == 'resource':
         return None
     return 'exceeded' if (over_depth or over_elems) else 'processed'
@@ -548,9 +565,12 @@ def judge_sweep(cfg, recs, status):
         key = 'C11|limit|%s|%s|%s|n=%d|expected=%s|%s' % (name, cfg['shape'], mode, n, exp, got)
         rel = {'processed': 'is within the limits and must be processed',
                'exceeded': 'exceeds a limit and must be refused with XMLResourceExceeded'}[exp]
+        depth, count = shape_size(cfg['shape'], n)
         what = ('limits %s, %s document (%s) with %d elements, %s resource: %s; observed %s in %s'
-                % (name, cfg['shape'], 'nesting depth %d' % n if cfg['shape'].startswith('chain') else 'depth 2',
-                   n, mode, rel, got, ' '.join(sorted(calls))))
+                % (name, cfg['shape'], 'nesting depth %d' % depth if cfg['shape'].startswith('chain') else
+                   '%d groups whose last child declares a namespace, depth 3' % n
+                   if cfg['shape'].startswith('groups') else 'depth 2',
+                   count, mode, rel, got, ' '.join(sorted(calls))))
         discs.append((key, what))
     if status != 'ok':
         done = {(r['n'], r['mode'], r['api'], r['v']) for r in recs if 'n' in r}
